@@ -15,9 +15,10 @@ def strip_controls(s):
 
 
 class TM:
-    def __init__(self, chars=None, base=None):
+    def __init__(self, chars=None, base=None, tab=8):
         self.chars = list(chars or [])   # [(ch, layers|None)]
         self.base = base                 # record or None
+        self.tab = tab                   # the text's own tab size (what expand_tabs() without an argument uses)
 
     @classmethod
     def from_str(cls, s, base=None, layer=None, strip=True):
@@ -27,7 +28,7 @@ class TM:
         return cls([(c, layers) for c in s], base)
 
     def copy(self):
-        return TM(list(self.chars), self.base)
+        return TM(list(self.chars), self.base, self.tab)
 
     @property
     def plain(self):
@@ -144,7 +145,7 @@ class TM:
         del self.chars[n:]
 
     def pieces(self, bounds):
-        return [TM(self.chars[a:b] if a <= b else [], self.base) for a, b in bounds]
+        return [TM(self.chars[a:b] if a <= b else [], self.base, self.tab) for a, b in bounds]
 
 
 def split_bounds(s, sep, include_separator, allow_blank):
